@@ -383,6 +383,10 @@ class Generator:
         cols = [self.refarg(pt, t, allow_str=True) for t in toks]
         if any(c is None for c in cols):
             return None
+        oos = self.maybe_oos(pt, ("int", "str"))
+        if oos:
+            cols.insert(self.rng.randrange(len(cols) + 1), oos)
+            self.m.note("oos_in:select")
         return {"op": "select", "t": pt.id, "cols": cols}
 
     def g_drop(self):
@@ -394,6 +398,10 @@ class Generator:
         cols = [self.refarg(pt, t, allow_str=True) for t in toks]
         if any(c is None for c in cols):
             return None
+        oos = self.maybe_oos(pt, ("int", "str"))
+        if oos:
+            cols.insert(self.rng.randrange(len(cols) + 1), oos)
+            self.m.note("oos_in:drop")
         return {"op": "drop", "t": pt.id, "cols": cols}
 
     def collision_names(self):
@@ -450,6 +458,10 @@ class Generator:
             if a is None:
                 return None
             out.append([a, n])
+        oos = self.maybe_oos(pt, ("int", "str"))
+        if oos:
+            out.append([oos, self.fresh_name()])
+            self.m.note("oos_in:rename")
         return {"op": "rename", "t": pt.id, "map": out}
 
     def hidden_names(self, pt):
@@ -810,6 +822,10 @@ class Generator:
             if a is None:
                 return None
             by = [dict(a=a, desc=self.rng.random() < 0.3, nulls=self.rng.choice(["first", "last"]))]
+        oos = self.maybe_oos(pt, ("int", "str"))
+        if oos:
+            by = [dict(a=oos, desc=self.rng.random() < 0.3, nulls=None)] + by
+            self.m.note("oos_in:arrange")
         return {"op": "arrange", "t": pt.id, "by": by}
 
     def g_slice_head(self):
@@ -908,18 +924,110 @@ class Generator:
         return pt and {"op": "recompute", "t": pt.id}
 
     def g_transfer(self):
-        # new = a re-rooted copy of src (alias / collect(keep_col_refs=False) / clone)
+        # new = a re-rooted copy of src (alias / collect(keep_col_refs=False) / clone), possibly with
+        # select / drop / rename / filter / arrange on top (a materialisation that reorders columns)
         m = self.m
-        cands = [
-            p
-            for p in (m.tables[t] for t in self.tables())
-            if p.m.same_as in m.tables and all(p.m.name_of_tok(t) is not None for t in p.m.grouping)
-        ]
+        rng = self.rng
+
+        def src_of(p):
+            return p.m.same_as if p.m.same_as in m.tables else p.m.view_src if p.m.view_src in m.tables else None
+
+        cands = [p for p in (m.tables[t] for t in self.tables()) if src_of(p) and all(p.m.name_of_tok(t) is not None for t in p.m.grouping)]
         if not cands:
             return None
-        new = self.rng.choice(cands)
+        new = rng.choice(cands)
+        if new.m.same_as is not None and len(new.m.visible) >= 2 and rng.random() < 0.5 and not self.plan:
+            # reorder the copy first (same names, other positions), then transfer
+            src_id = new.m.same_as
+            names = new.m.names()
+            perm = list(names)
+            rng.shuffle(perm)
+            if rng.random() < 0.3 and len(perm) > 2:
+                perm = perm[:-1]
+
+            def do_transfer(i):
+                nid = f"t{i - 1}"
+                if nid not in m.tables or src_id not in m.tables:
+                    return None
+                m.note("transfer_reordered")
+                return {"op": "transfer", "new": nid, "src": src_id}
+
+            self.plan = [do_transfer]
+            return {"op": "select", "t": new.id, "cols": [{"c": n} for n in perm]}
         m.note("transfer_col_references")
-        return {"op": "transfer", "new": new.id, "src": new.m.same_as}
+        return {"op": "transfer", "new": new.id, "src": src_of(new)}
+
+    def g_cq_probe(self):
+        """compile-only probe (sim/cqprobe.py): a short by-name verb chain, starting with a window
+        function (mostly without `arrange`), judged by build_query on every SQL dialect"""
+        m = self.m
+        rng = self.rng
+        T = m.model.toks
+        pt = self.pick_table(lambda p: not p.m.grouping and len(p.m.visible) >= 2 and "polars" in p.real)
+        if pt is None:
+            return None
+        names = [n for n in pt.m.names() if n not in ("w__", "m__", "e__")]
+        ints = [n for n, t in pt.m.visible if T[t].kind == "int" and n in names]
+        if not ints or len(names) != len(pt.m.names()):
+            return None
+        chain = []
+        if rng.random() < 0.85:
+            w = {"v": "win", "f": rng.choice(["shift", "rown"]), "a": rng.choice(ints), "ar": rng.random() < 0.25}
+            if rng.random() < 0.3:
+                w["pb"] = [rng.choice(names)]
+            chain.append(w)
+            names = names + ["w__"]
+            ints = ints + ["w__"]
+        for _ in range(rng.choice([0, 1, 1, 2, 2, 3])):
+            if not ints:
+                break
+            k = rng.choice(["select", "alias", "summarize", "filter", "arrange", "slice", "mutate", "join_right", "slice"])
+            if k == "select":
+                cols = rng.sample(names, rng.randint(1, len(names)))
+                if "w__" in cols and rng.random() < 0.6:
+                    cols = ["w__"] + [c for c in cols if c != "w__"]
+                chain.append({"v": "select", "cols": cols})
+                names = cols
+                ints = [n for n in ints if n in cols]
+            elif k == "alias":
+                chain.append({"v": "alias"})
+            elif k == "summarize":
+                a = "w__" if ("w__" in ints and rng.random() < 0.6) else rng.choice(ints)
+                by = [n for n in rng.sample(names, rng.choice([0, 1, 1, 2])) if n != a] if len(names) >= 2 else []
+                chain.append({"v": "summarize", "a": a, "by": by})
+                names = by + ["m__"]
+                ints = [n for n in ints if n in by] + ["m__"]
+            elif k == "filter":
+                chain.append({"v": "filter", "a": rng.choice(ints), "c": rng.randrange(0, 4)})
+            elif k == "arrange":
+                chain.append({"v": "arrange", "a": rng.choice(names), "desc": rng.random() < 0.4, "nulls": rng.choice([None, "first", "last"])})
+            elif k == "slice":
+                chain.append({"v": "slice", "n": rng.choice([1, 2, 5]), "off": rng.choice([0, 1, 3])})
+            elif k == "mutate":
+                chain.append({"v": "mutate", "a": rng.choice(ints), "k": rng.randrange(1, 9), "name": rng.choice(["e__"] + names)})
+                if chain[-1]["name"] not in names:
+                    names = names + [chain[-1]["name"]]
+                else:
+                    names = [n for n in names if n != chain[-1]["name"]] + [chain[-1]["name"]]
+                if chain[-1]["name"] not in ints:
+                    ints = ints + [chain[-1]["name"]]
+            elif k == "join_right":
+                lp = self.pick_table(
+                    lambda p: p.id != pt.id
+                    and not p.m.grouping
+                    and "polars" in p.real
+                    and not (p.m.origins & pt.m.origins)
+                    and not (set(p.m.scope) & set(pt.m.scope))
+                    and any(T[t].kind == "int" for t in p.m.vis_toks())
+                )
+                if lp is None:
+                    continue
+                ln = rng.choice([n for n, t in lp.m.visible if T[t].kind == "int"])
+                chain.append({"v": "join_right", "l": lp.id, "ln": ln, "rn": rng.choice(ints), "how": rng.choice(["inner", "left", "full"])})
+                break
+        if not chain:
+            return None
+        return {"op": "cq_probe", "t": pt.id, "chain": chain}
 
     # ---- join -------------------------------------------------------------------------
     def g_join(self):
